@@ -15,7 +15,10 @@
 (* symbolic flow history (hist) whose closed form xs + (x0 - xs) exp(-k dt) *)
 (* is evaluated by the harness (mbt/simkit.py).                            *)
 (*                                                                         *)
-(* Time.  A time is [b, o]: o integer ticks after base b.  Base 0 is model *)
+(* Time.  A time is [b, o, e]: o integer ticks and e "epsilons" after base  *)
+(* b (an epsilon is later than nothing-at-all and earlier than any tick:   *)
+(* the order is lexicographic; the harness renders it as a very small      *)
+(* positive amount, also at large absolute times).  Base 0 is model        *)
 (* time zero; base j > 0 is the time stamp of the j-th steady-state point, *)
 (* which the statement of C04 leaves free: the only thing assumed of it is *)
 (* that it is later than everything reached before (lexicographic order).  *)
@@ -31,17 +34,20 @@ CONSTANTS
     Depth,      \* length of the call histories enumerated by Next
     EmitOn,     \* TRUE: print every completed history with the predicted observations
     Variant,    \* "contract" | "shiftcmp" | "ssreset"
-    MenuName    \* "c04" (the full menu) | "c04small" (12 operations, for depth 4) | "variant"
+    MenuName    \* "c04" (the full menu) | "c04small" (14 operations, for depth 4) | "variant"
 
 VARIABLES st, h
 
 -----------------------------------------------------------------------------
 \* time
-T(b, o) == [b |-> b, o |-> o]
+T(b, o) == [b |-> b, o |-> o, e |-> 0]
 Zero == T(0, 0)
-TLt(s, t) == s.b < t.b \/ (s.b = t.b /\ s.o < t.o)
+TLt(s, t) == s.b < t.b \/ (s.b = t.b /\ s.o < t.o) \/ (s.b = t.b /\ s.o = t.o /\ s.e < t.e)
 TLe(s, t) == ~TLt(t, s)
 TAdd(t, d) == [t EXCEPT !.o = @ + d]
+TEps(t) == [t EXCEPT !.e = @ + 1]                 \* just after t
+\* offsets of relative grids are written as one integer: 1000 * ticks + epsilons
+TAddV(t, v) == [t EXCEPT !.o = @ + (v \div 1000), !.e = @ + (v % 1000)]
 Increasing(ts) == \A i \in 1..(Len(ts) - 1) : TLt(ts[i], ts[i + 1])
 SortTimes(S) == SetToSortSeq(S, TLt)
 Idx(s) == [i \in 1..Len(s) |-> i]
@@ -80,7 +86,7 @@ AppendSeg(s, pts) ==
     IN [s EXCEPT !.segs = Append(@, seg), !.now = te, !.it0 = te,
                  !.hist = Append(@, H("flow", 0, s.p, Origin(s), te))]
 
-LinPts(from, te, n) == [j \in 1..n |-> TAdd(from, (j * (te.o - from.o)) \div n)]
+LinPts(from, te, n) == IF n = 1 THEN <<te>> ELSE [j \in 1..n |-> TAdd(from, (j * (te.o - from.o)) \div n)]
 
 Simulate(s, te, n) ==
     IF ~TLt(s.now, Shifted(s, te)) THEN Refuse(s)
@@ -131,7 +137,7 @@ ProtocolTC(s, steps, pts) ==
                     IN TimeCourse(SetPars(x, steps[i].p), SortTimes({q \in Range(pts) : TLe(q, b)} \cup {b})),
                   s, Len(steps))
 
-AbsPts(s, op) == IF op.rel THEN [j \in 1..Len(op.rpts) |-> TAdd(s.now, op.rpts[j])] ELSE op.pts
+AbsPts(s, op) == IF op.rel THEN [j \in 1..Len(op.rpts) |-> TAddV(s.now, op.rpts[j])] ELSE op.pts
 
 Eff(op, s) ==
     CASE op.k = "sim"   -> Simulate(s, op.te, op.n)
@@ -173,13 +179,17 @@ Menu(s) ==
        THEN << OpSim(t, 1), OpSim(TAdd(t, 2), 1), OpSim(TAdd(t, 6), 2),
                OpTc(Rel(t, <<m2, 2, 4>>)), OpTc(Rel(t, <<0, 1, 3>>)),
                OpPtcAbs(Proto2, Rel(t, <<1, 2, 5, 9>>)),
+               OpTc(<<TEps(t), TAdd(t, 2)>>), OpPtcRel(Proto2, <<1, 2001, 6000>>),
                OpUpd("k", IF s.p.kk = 128 THEN 64 ELSE 128), OpUpd("k", IF s.p.kk = 1 THEN 64 ELSE 1),
                OpOv(10), OpSs(T(s.nss + 1, 0)), OpClear, OpRead >>
        ELSE << OpSim(TAdd(t, m2), 1), OpSim(t, 1), OpSim(TAdd(t, 2), 1), OpSim(TAdd(t, 6), 1),
                OpSim(TAdd(t, m2), 2), OpSim(t, 2), OpSim(TAdd(t, 2), 2), OpSim(TAdd(t, 6), 2),
                OpTc(Rel(t, <<2, 4>>)), OpTc(Rel(t, <<m2, 2, 4>>)), OpTc(<<t>>), OpTc(Rel(t, <<0, 1, 3>>)),
-               OpProto(Proto2, 2), OpPtcAbs(Proto2, Rel(t, <<1, 2, 5, 9>>)), OpPtcRel(Proto3, <<0, 2, 3, 10>>),
-               OpPtcRel(Proto2, <<m2, 0>>),
+               OpProto(Proto2, 2), OpPtcAbs(Proto2, Rel(t, <<1, 2, 5, 9>>)), OpPtcRel(Proto3, <<0, 2000, 3000, 10000>>),
+               OpPtcRel(Proto2, <<0 - 2000, 0>>),
+               \* points just after the time reached / just after a step boundary
+               OpSim(TEps(t), 1), OpTc(<<TEps(t), TAdd(t, 2)>>),
+               OpPtcAbs(Proto2, <<TEps(t), TEps(TAdd(t, 2)), TAdd(t, 5)>>), OpPtcRel(Proto2, <<1, 2001, 6000>>),
                OpUpd("k", IF s.p.kk = 128 THEN 64 ELSE 128), OpUpd("k", IF s.p.kk = 1 THEN 64 ELSE 1),
                OpUpd("kin", IF s.p.kin = 64 THEN 128 ELSE 64),
                OpOv(10), OpSs(T(s.nss + 1, 0)), OpClear, OpRead >>
